@@ -380,7 +380,9 @@ def layout_cells(info, prop, tier, verif, refine=()):
 
 def anylayout_cells(info, prop, tier, verif, refine=()):
     """C17: per variant, both wrapper forms equal the wrapped layout for every key, modifier set and mode"""
-    lays = real_layouts(info)
+    from . import native
+    wrapped = native.wrapped_layouts(info)
+    lays = [l for l in real_layouts(info) if l in wrapped]   # a layout need not be a variant of the wrapper
     if 'AnyLayout' not in info.layouts or '&AnyLayout' not in info.layouts:
         raise ExtractError('lost-anchor: impl KeyboardLayout for AnyLayout / &AnyLayout not found')
     out = ['pub mod verif_c17_cells {', 'use vstd::prelude::*;', 'use crate::*;', 'use crate::layouts::*;', '']
